@@ -71,27 +71,27 @@ func c15AlterMsg(r *Rng, m []byte) [][]byte {
 
 type bigCurve struct{ p, a, b, gx, gy, n *big.Int }
 
-func hexBig(s string) *big.Int {
+func c15hexBig(s string) *big.Int {
 	v, ok := new(big.Int).SetString(s, 16)
 	if !ok {
-		panic("hexBig")
+		panic("c15hexBig")
 	}
 	return v
 }
 
 var c15BigCurves = map[string]*bigCurve{
 	"k256": {
-		p: hexBig("fffffffffffffffffffffffffffffffffffffffffffffffffffffffefffffc2f"), a: big.NewInt(0), b: big.NewInt(7),
-		gx: hexBig("79be667ef9dcbbac55a06295ce870b07029bfcdb2dce28d959f2815b16f81798"),
-		gy: hexBig("483ada7726a3c4655da4fbfc0e1108a8fd17b448a68554199c47d08ffb10d4b8"),
-		n:  hexBig("fffffffffffffffffffffffffffffffebaaedce6af48a03bbfd25e8cd0364141")},
+		p: c15hexBig("fffffffffffffffffffffffffffffffffffffffffffffffffffffffefffffc2f"), a: big.NewInt(0), b: big.NewInt(7),
+		gx: c15hexBig("79be667ef9dcbbac55a06295ce870b07029bfcdb2dce28d959f2815b16f81798"),
+		gy: c15hexBig("483ada7726a3c4655da4fbfc0e1108a8fd17b448a68554199c47d08ffb10d4b8"),
+		n:  c15hexBig("fffffffffffffffffffffffffffffffebaaedce6af48a03bbfd25e8cd0364141")},
 	"p256": {
-		p: hexBig("ffffffff00000001000000000000000000000000ffffffffffffffffffffffff"),
-		a: hexBig("ffffffff00000001000000000000000000000000fffffffffffffffffffffffc"),
-		b: hexBig("5ac635d8aa3a93e7b3ebbd55769886bc651d06b0cc53b0f63bce3c3e27d2604b"),
-		gx: hexBig("6b17d1f2e12c4247f8bce6e563a440f277037d812deb33a0f4a13945d898c296"),
-		gy: hexBig("4fe342e2fe1a7f9b8ee7eb4a7c0f9e162bce33576b315ececbb6406837bf51f5"),
-		n:  hexBig("ffffffff00000000ffffffffffffffffbce6faada7179e84f3b9cac2fc632551")},
+		p: c15hexBig("ffffffff00000001000000000000000000000000ffffffffffffffffffffffff"),
+		a: c15hexBig("ffffffff00000001000000000000000000000000fffffffffffffffffffffffc"),
+		b: c15hexBig("5ac635d8aa3a93e7b3ebbd55769886bc651d06b0cc53b0f63bce3c3e27d2604b"),
+		gx: c15hexBig("6b17d1f2e12c4247f8bce6e563a440f277037d812deb33a0f4a13945d898c296"),
+		gy: c15hexBig("4fe342e2fe1a7f9b8ee7eb4a7c0f9e162bce33576b315ececbb6406837bf51f5"),
+		n:  c15hexBig("ffffffff00000000ffffffffffffffffbce6faada7179e84f3b9cac2fc632551")},
 }
 
 // affine points: nil x = infinity
